@@ -273,6 +273,7 @@ func inUnlock(s *State, fr *Frame, fn *ssa.Function, a []Value, d ssa.Value) (Va
 	}
 	s.tick(s.cur)
 	l.vc = s.cur.vc.clone()
+	s.tick(s.cur) // what this thread does after the release is not covered by it
 	l.rvc = nil
 	l.writer = nil
 	return nil, false
@@ -300,6 +301,7 @@ func inRUnlock(s *State, fr *Frame, fn *ssa.Function, a []Value, d ssa.Value) (V
 	}
 	s.tick(s.cur)
 	l.rvc = l.rvc.join(s.cur.vc)
+	s.tick(s.cur) // later accesses of this thread are not ordered before the next writer
 	l.readers--
 	return nil, false
 }
@@ -363,6 +365,7 @@ func inPoolPut(s *State, fr *Frame, fn *ssa.Function, a []Value, d ssa.Value) (V
 		s.poolVC = map[lockKey]VC{}
 	}
 	s.poolVC[k] = s.poolVC[k].clone().join(s.cur.vc)
+	s.tick(s.cur)
 	return nil, false
 }
 
@@ -396,6 +399,7 @@ func (s *State) atomicSync(p Ptr, write bool) {
 		if write {
 			s.tick(th)
 			m.atomicVC = m.atomicVC.clone().join(th.vc)
+			s.tick(th)
 		}
 		return
 	}
@@ -416,6 +420,7 @@ func (s *State) atomicSync(p Ptr, write bool) {
 		m.atomicVC = m.atomicVC.clone().join(th.vc)
 		m.wTid, m.wClk, m.wWhere, m.wAtomic = th.id, th.vc.get(th.id), s.where(), true
 		m.reads, m.rWhere = nil, nil
+		s.tick(th)
 	}
 }
 
